@@ -80,9 +80,22 @@ Print Assumptions C12_reject_keeps_active.
    other than POST - and GET / probe traffic - leaves config text, request
    half and response half exactly as they were. *)
 Theorem C12_only_a_200_changes_the_active_configuration : forall n a c,
+  is_setter c = false ->      (* anything but the public SetRequestModifier / SetResponseModifier *)
   snd (impl_step n a c) <> OStatus true -> fst (impl_step n a c) = a.
 Proof. exact only_200_changes_active. Qed.
 Print Assumptions C12_only_a_200_changes_the_active_configuration.
+
+(* "Replaces completely" includes: whatever was there.  The state after an
+   accepted POST does not depend on the state before it - not on overrides
+   installed through SetRequestModifier / SetResponseModifier, not on the same
+   configuration being active already (POST A; ...; POST A = POST A): a fresh
+   tree is installed by THIS command on both halves. *)
+Theorem C12_accepted_post_ignores_previous_state : forall n a a' t,
+  has_bad t = false ->
+  fst (post n a t) = fst (post n a' t) /\ snd (post n a t) = true /\
+  oreq (fst (post n a t)) = n /\ ores (fst (post n a t)) = n.
+Proof. exact accepted_post_ignores_previous_state. Qed.
+Print Assumptions C12_accepted_post_ignores_previous_state.
 
 (* An accepted one replaces it completely: afterwards the Modifier's behaviour
    on every message is the new tree's meaning, independent of what was active. *)
@@ -97,7 +110,7 @@ Print Assumptions C12_accept_replaces.
 (* Over any history of POSTs, probe traffic and GETs, the Modifier behaves as
    "the last accepted tree is in force". *)
 Theorem C12_reconfiguration : forall cs,
-  impl_script 0 init_active cs = spec_script 0 None cs.
+  impl_script 0 init_active cs = spec_script 0 s_init cs.
 Proof. exact reconfiguration. Qed.
 Print Assumptions C12_reconfiguration.
 
@@ -109,7 +122,7 @@ Proof. exact c12_ok_iff. Qed.
 Print Assumptions C12_oracle_is_the_property.
 
 Theorem C12_script_oracle_is_the_property : forall cs observed,
-  c12_script_ok cs observed = true <-> observed = spec_script 0 None cs.
+  c12_script_ok cs observed = true <-> observed = spec_script 0 s_init cs.
 Proof. exact c12_script_ok_iff. Qed.
 Print Assumptions C12_script_oracle_is_the_property.
 
@@ -408,19 +421,26 @@ Proof. vm_compute. repeat split. Qed.
 (* reconfiguration: accept, reject (old one stays in force), accept (replaced
    completely: the new one has no response half) *)
 Example C12_example_script :
-  spec_script 0 None
+  spec_script 0 s_init
     [ Get; Probe KReq (fun _ => true);
       Post (Leaf 1 None true true false false); Probe KRes (fun _ => true);
       Post (Fifo None false [Leaf 2 None true true false false; Bad 0]); Probe KRes (fun _ => true); Get;
       Post (Leaf 3 (Some [SReq]) true true true false); Probe KRes (fun _ => true);
       Probe KReq (fun _ => true); Get;
-      PostErr (Leaf 4 None true true false false); Probe KReq (fun _ => true); BadMethod; Get ]%N
-  = [ OCfg None; OOut [] [];
-      OStatus true; OOut [1] [];
-      OStatus false; OOut [1] []; OCfg (Some 2%nat);
-      OStatus true; OOut [] [];
-      OOut [3] [3]; OCfg (Some 7%nat);
-      ORefused 500; OOut [3] [3]; ORefused 405; OCfg (Some 7%nat) ]%N.
+      PostErr (Leaf 4 None true true false false); Probe KReq (fun _ => true); BadMethod; Get;
+      (* override the request half; then POST the SAME configuration again: the
+         override is gone, and the instance that runs is the one created by the
+         second POST (position 18), not the one from position 7 *)
+      SetReq (Some 9); Probe KReq (fun _ => true); Get;
+      Post (Leaf 3 (Some [SReq]) true true true false); Probe KReq (fun _ => true); Get ]%N
+  = [ OCfg None; OOut [] [] [];
+      OStatus true; OOut [1] [] [2%nat];
+      OStatus false; OOut [1] [] [2%nat]; OCfg (Some 2%nat);
+      OStatus true; OOut [] [] [];
+      OOut [3] [3] [7%nat]; OCfg (Some 7%nat);
+      ORefused 500; OOut [3] [3] [7%nat]; ORefused 405; OCfg (Some 7%nat);
+      OSet; OOut [9] [] [15%nat]; OCfg (Some 7%nat);
+      OStatus true; OOut [3] [3] [18%nat]; OCfg (Some 18%nat) ]%N.
 Proof. vm_compute. reflexivity. Qed.
 
 (* hypotheses of the audit theorems are satisfiable *)
@@ -429,7 +449,7 @@ Example C12_example_hypotheses :
   /\ node_acts KReq (Leaf 8 (Some [SRes]) true true false true) = false
   /\ node_acts KRes ex_tree = true
   /\ live KReq ex_tree = [1; 2; 3; 4; 6]%N
-  /\ snd (impl_step 3 init_active (PostErr ex_tree)) <> OStatus true
+  /\ is_setter (PostErr ex_tree) = false /\ snd (impl_step 3 init_active (PostErr ex_tree)) <> OStatus true
   /\ Forall (same_probe KReq (fun _ => true))
        [Post ex_tree; Probe KReq (fun _ => true); Get; PostErr ex_tree; Probe KReq (fun _ => true)].
 Proof.
